@@ -369,11 +369,11 @@ pub fn init_pool(fam: Fam, h: &History) -> Result<Vec<T>, String> {
     Ok(v)
 }
 
-/// Run a history. `observe(step index, step, outcome, pool, changed slot)` is called after every
+/// Run a history. `observe(step index, step, outcome, pool, changed slot, produced table)` is called after every
 /// step and may stop the run by returning Err.
 pub fn run_history<F>(fam: Fam, h: &History, mut observe: F) -> Result<Vec<Outcome>, String>
 where
-    F: FnMut(usize, &Step, &Outcome, &[T], Option<usize>) -> Result<(), String>,
+    F: FnMut(usize, &Step, &Outcome, &[T], Option<usize>, Option<&dyn Tab>) -> Result<(), String>,
 {
     let mut pool = init_pool(fam, h)?;
     let mut outs = Vec::with_capacity(h.steps.len());
@@ -382,20 +382,30 @@ where
         match r {
             Err(p) => {
                 outs.push(Outcome::Panic);
-                observe(k, st, &Outcome::Panic, &pool, None)
+                observe(k, st, &Outcome::Panic, &pool, None, None)
                     .map_err(|e| format!("{} [{}]", e, p))?;
                 // a panic on valid arguments ends the history (state may be inconsistent)
                 return Ok(outs);
             }
             Ok((o, newv)) => {
                 let mut changed = None;
+                let mut stray: Option<T> = None;
                 if let Some(t) = newv {
                     if t.n() == h.n && t.fam() == fam {
                         pool[st.dst] = t;
                         changed = Some(st.dst);
+                    } else {
+                        // a produced table of another size (Lut::default(), or a defect): not stored,
+                        // but still shown to the observer
+                        stray = Some(t);
                     }
                 }
-                observe(k, st, &o, &pool, changed)?;
+                let produced: Option<&dyn Tab> = match (changed, &stray) {
+                    (Some(d), _) => Some(pool[d].as_ref()),
+                    (None, Some(t)) => Some(t.as_ref()),
+                    _ => None,
+                };
+                observe(k, st, &o, &pool, changed, produced)?;
                 outs.push(o);
             }
         }
